@@ -5,6 +5,7 @@ import (
 	"encoding/binary"
 	"encoding/json"
 	"fmt"
+	"os"
 	"runtime"
 	"sort"
 	"strings"
@@ -48,8 +49,10 @@ type Stats struct {
 	Kills, KillsAfterCkpt, KillsDuringCkpt, JobRestarts, Ticks, Checkpoints int
 	NonIdentityAcks, Recoveries                                             int
 	Invocations                                                             int
-	Savepoints, SelfExits                                                   int
+	Savepoints, SelfExits, FinalRetries                                     int
 	BarriersBothSides, MaxKeyCalls, ResumedSplits                           int
+	ExitReasons                                                             []string
+	HandlerPanics                                                           []string
 }
 
 func buildData(p Program) (map[string][]Rec, map[string]int) {
@@ -129,6 +132,12 @@ func Run(p Program, c *hx.Case) (st Stats, err error) {
 	}
 	w.Heartbeat()
 	done := func() bool {
+		// the incarnation of the assembly that is current has been started (its
+		// progress model was reset to the checkpoint it resumed from) and has
+		// applied every record
+		if w.startedGen.Load() != w.gen.Load() {
+			return false
+		}
 		w.H.mu.Lock()
 		defer w.H.mu.Unlock()
 		for k, n := range totals {
@@ -153,6 +162,7 @@ func Run(p Program, c *hx.Case) (st Stats, err error) {
 	lastTime := time.Now()
 	lastInv := -1
 	publishedBefore := 0
+settle:
 	for !done() {
 		select {
 		case f := <-actions:
@@ -215,7 +225,8 @@ func Run(p Program, c *hx.Case) (st Stats, err error) {
 			}
 		case who := <-w.Exited:
 			// the supervisor restarts a worker process that exited on its own
-			_ = who
+			st.ExitReasons = append(st.ExitReasons, who)
+			c.Logf("worker exited on its own: %s", who)
 			st.SelfExits++
 			w.StartWorker()
 			w.Heartbeat()
@@ -234,6 +245,9 @@ func Run(p Program, c *hx.Case) (st Stats, err error) {
 			w.mu.Lock()
 			c.Logf("deploys=%d startckpts=%v assigned=%v snapshots=%v", w.Deploys, w.StartCkpts, w.Assigned, nil)
 			w.mu.Unlock()
+			if os.Getenv("VERIF_STACKS") != "" {
+				c.Logf("goroutines:\n%s", hx.Goroutines("reduction.dev/reduction"))
+			}
 			return st, hx.Errf("no handler invocation for %v although %d workers are live and registered, every call is delivered and records remain (applied %v of %v): the pipeline is stuck", stallAfter, len(w.Live()), w.H.Applied, totals)
 		}
 		if time.Since(lastProgress) > 30*time.Millisecond && time.Since(lastTime) > 30*time.Millisecond {
@@ -244,6 +258,7 @@ func Run(p Program, c *hx.Case) (st Stats, err error) {
 		}
 	}
 	// final checkpoint
+	genAtDone := w.gen.Load()
 	publishedBefore = len(w.Snapshots())
 	var lastID uint64
 	if s := w.Snapshots(); len(s) > 0 {
@@ -268,7 +283,9 @@ func Run(p Program, c *hx.Case) (st Stats, err error) {
 			return st, err
 		}
 		select {
-		case <-w.Exited:
+		case who := <-w.Exited:
+			st.ExitReasons = append(st.ExitReasons, who)
+			c.Logf("worker exited on its own: %s", who)
 			st.SelfExits++
 			w.StartWorker()
 			w.Heartbeat()
@@ -284,6 +301,17 @@ func Run(p Program, c *hx.Case) (st Stats, err error) {
 	}
 	if err := check(); err != nil {
 		return st, err
+	}
+	if w.gen.Load() != genAtDone || !done() {
+		// the assembly was replaced while the final checkpoint was taken (workers may
+		// lose their registration on their own under load): the new incarnation
+		// first has to process the input again
+		st.FinalRetries++
+		if st.FinalRetries > 20 {
+			return st, &hx.Inconclusive{Why: "the assembly kept being replaced while the final checkpoint was taken"}
+		}
+		lastProgress = time.Now()
+		goto settle
 	}
 	// read the final checkpoint back: per (key, split) the count must be the total
 	snaps := w.Snapshots()
@@ -357,7 +385,11 @@ func Run(p Program, c *hx.Case) (st Stats, err error) {
 	}
 	w.mu.Lock()
 	st.MaxKeyCalls = w.MaxKeyCalls
+	st.HandlerPanics = append([]string(nil), w.HandlerPanics...)
 	w.mu.Unlock()
+	for _, hp := range st.HandlerPanics {
+		c.Label("handler-panic:" + strings.SplitN(hp, " ", 2)[0])
+	}
 	st.Checkpoints = len(w.Snapshots())
 	w.H.mu.Lock()
 	st.Invocations = w.H.Invocations
